@@ -159,6 +159,7 @@ type Replica struct {
 	BS    *store.BlockStore
 	bsDB  tmdb.DB
 	Idx   txindex.TxIndexer
+	shifts map[int64]int64 // height -> extra seconds before that block
 	idxDB tmdb.DB
 	Gen   *config.GenesisDoc
 	Spec  *GenesisSpec
@@ -293,7 +294,17 @@ type BlockIn struct {
 	DT        int64 // seconds since previous block (default 15)
 }
 
-func (r *Replica) blockTime(h int64) time.Time { return r.T0.Add(time.Duration(h) * 15 * time.Second) }
+// blockTime: 15 s per block plus the extra seconds of every block up to h that asked for a longer gap (BlockIn.DT);
+// keyed by height, so that a block replayed after a crash gets the same time again
+func (r *Replica) blockTime(h int64) time.Time {
+	t := r.T0.Add(time.Duration(h) * 15 * time.Second)
+	for k, extra := range r.shifts {
+		if k <= h {
+			t = t.Add(time.Duration(extra) * time.Second)
+		}
+	}
+	return t
+}
 
 func (r *Replica) valSet(h int64) *tmtypes.ValidatorSet {
 	if vs, ok := r.ValSets[h]; ok {
@@ -318,6 +329,12 @@ func (r *Replica) BeginBlock(in *BlockIn) {
 	r.Use()
 	r.H++
 	h := r.H
+	if in.DT > 15 {
+		if r.shifts == nil {
+			r.shifts = map[int64]int64{}
+		}
+		r.shifts[h] = in.DT - 15
+	}
 	t := r.blockTime(h)
 	blk := tmtypes.MakeBlock(h, nil, &tmtypes.Commit{Height: h - 1}, nil)
 	blk.Header.Time = t
